@@ -47,9 +47,11 @@ class Executor(ExprMixin, CallMixin, LoopMixin, CompMixin, BuiltinMixin):
         if not self.collect:
             return
         name = f"{self.prop}/{self.cur_fn}/{kind}"
-        ob = Obligation(name, st.hyp() + self.axioms, goal, self.cur_fn, kind, clause=clause, site=site,
-                        state=st, note=note)
-        self.obligations.append(ob)
+        hyps = st.hyp() + self.axioms
+        # a conjunctive goal is discharged conjunct by conjunct (same obligation name; all must be unsat)
+        for g in split_goal(goal):
+            ob = Obligation(name, hyps, g, self.cur_fn, kind, clause=clause, site=site, state=st, note=note)
+            self.obligations.append(ob)
 
     # -- blocks / statements -------------------------------------------------------------------
     def exec_block(self, stmts, st):
@@ -464,6 +466,9 @@ class Executor(ExprMixin, CallMixin, LoopMixin, CompMixin, BuiltinMixin):
             for k, e in enumerate(c["ensures"]):
                 goal = self.spec_truth(e, penv, o, old=o.old)
                 self.oblige(o, f"ensures#{k}", goal, clause=e)
+                # postconditions are proved in order; an earlier one may be used for a later one (cut rule)
+                o = o.copy()
+                o.assume(goal)
         elif o.status == "raise":
             allowed = c["raises"]
             if not any(self.is_subexc(o.exc, a) for a in allowed):
@@ -475,6 +480,48 @@ class Executor(ExprMixin, CallMixin, LoopMixin, CompMixin, BuiltinMixin):
                     self.oblige(o, f"exc_ensures/{o.exc}#{k}", goal, clause=e)
         else:
             raise EngineError(f"exit status {o.status}")
+
+
+def split_goal(g, budget=16):
+    """Equivalent list of smaller goals: And / Or-over-And / Implies-to-And / ForAll-of-And are distributed."""
+    out = []
+
+    def go(t, depth):
+        if len(out) >= budget or depth > 4:
+            out.append(t)
+            return
+        if z3.is_and(t):
+            for c in t.children():
+                go(c, depth + 1)
+        elif z3.is_or(t):
+            ch = t.children()
+            ands = [c for c in ch if z3.is_and(c)]
+            if len(ands) == 1 and len(ands[0].children()) <= 8:
+                rest = [c for c in ch if not c.eq(ands[0])]
+                for c in ands[0].children():
+                    go(z3.Or(*rest, c), depth + 1)
+            else:
+                out.append(t)
+        elif z3.is_implies(t) and z3.is_and(t.arg(1)):
+            for c in t.arg(1).children():
+                go(z3.Implies(t.arg(0), c), depth + 1)
+        elif z3.is_quantifier(t) and t.is_forall() and t.num_patterns() == 0:
+            body = t.body()
+            inner = body.arg(1) if z3.is_implies(body) else body
+            if z3.is_and(inner) and len(inner.children()) <= 8:
+                n = t.num_vars()
+                vs = [z3.Const(t.var_name(i), t.var_sort(i)) for i in range(n)]
+                inst = z3.substitute_vars(body, *reversed(vs))
+                i2 = inst.arg(1) if z3.is_implies(inst) else inst
+                for c in i2.children():
+                    piece = z3.Implies(inst.arg(0), c) if z3.is_implies(inst) else c
+                    out.append(z3.ForAll(vs, piece))
+            else:
+                out.append(t)
+        else:
+            out.append(t)
+    go(g, 0)
+    return out or [g]
 
 
 def _as_load(node):
